@@ -74,7 +74,7 @@ impl IntrinsicBuilder<'_> {
     ) -> Result<Vec<Sp<LowerArg>>, ErrorReported> {
         // full pattern match to fail when new fields are added
         let &IntrinsicInstrAbiParts {
-            num_instr_args, plain_args: ref plain_args_info,
+            num_instr_args, padding: ref padding_info, plain_args: ref plain_args_info,
             outputs: ref outputs_info, jump: ref jump_info, sub_id: sub_id_info,
         } = abi_parts;
         // check that the caller's 'build' closure put all of the right things for this intrinsic
@@ -87,7 +87,8 @@ impl IntrinsicBuilder<'_> {
         // NOTE: This work buffer could be saved between instructions as a minor optimization...
         let mut out_args = vec![None; num_instr_args];
 
-        // padding gets added later during args -> bytes conversion so we don't need to fill it
+        // padding gets added later during args -> bytes conversion so we don't need to fill it.
+        // (it still has a slot here because the indices in abi_parts count it; the slots are dropped below)
 
         // fill in all of the options
         if let (Some(goto_ast), &Some(jump_info)) = (self.jump, jump_info) {
@@ -114,7 +115,11 @@ impl IntrinsicBuilder<'_> {
         }
 
         // all options should be Some(_) now
-        Ok(out_args.into_iter().map(|x| x.expect("arg was not filled in! (bug)")).collect::<Vec<_>>())
+        Ok({
+            out_args.into_iter().enumerate()
+                .filter(|(index, _)| !padding_info.contains(index))
+                .map(|(_, x)| x.expect("arg was not filled in! (bug)")).collect::<Vec<_>>()
+        })
     }
 }
 
